@@ -102,6 +102,13 @@ CHECKS = {
     note="Trusted: TLC, BigInt/IEEE, Python ast, the harness's C++ subset parser (an unknown form is exit 2), g++ -O0 -fno-fast-math -ffp-contract=off -frounding-math, and for clause exec_equal only the harness interpreter / reference C++ rendering. Wild-carded kinds (matched against the package's own template, listed in the evidence): sign, round, remainder (cpp), list, item. Not covered: list-valued programs, alt-context constants, long double. Known findings: see known_findings.d/C05.json (C++ float graphs computed with double literals was repaired; remaining: shared generated constant names, a reference name moving onto an argument, typeof_0, C++ compile failures on mixed/complex operands ...).",
     design="6/C05"),
 
+ "C01": dict(
+    category="model_checking",
+    technique="TLA+ spec AccuracyC.tla: the true complex values are SPECIFIED as rigorous dyadic interval enclosures (forward evaluation of well-conditioned formulas whose polynomial arguments are exact dyadics, over the series of Reals.tla; Kahan's forms for asin/acos/asinh/acosh); each recorded evaluation of the package's own expansion (raw bit patterns) is judged by Trace_AccuracyC.tla through Accuracy.tla's rounding-cell frame; enclosure laws model-checked by TLC (MC_AccuracyC); boundary classes enumerated by TLC (AccuracyCShapes); the rate threshold is derived in the spec; mpmath appears only in the machinery self-test",
+    text="For the 14 complex algorithms in complex64/complex128, with every complex sub-operation expanded by the package's own definitions (harness/evalalgo.py): each component within 16 ULP of the correctly rounded true value (t in [CellLo(Ord(w)-16), CellHi(Ord(w)+16)] decided against the enclosure, widened once if inconclusive), no spurious NaN/inf, no wrong sign (on a cut either side accepted; zero signs demanded only where oddness / conjugate symmetry fixes them); the 3-ULP (4 for sqrt, log1p) target rate on the two stated distributions judged by a binomial threshold derived in the spec. U1: 8 laws x 13 functions on dyadic grids (square(sqrt z) contains z, exp(log z), sin(asin z), ..., branch ranges, symmetries with signed zeros, cut sides, nesting) and a toy-format check that the correctly rounded truth passes every clause and a displaced component fails. U2/U3: uniform bit patterns, log-uniform 2^-12..2^12, 2765 TLC-enumerated (function, x-anchor, y-anchor) classes and relation shapes (|z|=1, |1+z|=1, x=-y^2/2, the a=1.5 ellipse ...), random neighbourhoods of them, and an error-maximising screen that only chooses inputs.",
+    note="Sampled, rigorous per sample: the quantifier over 2^64 / 2^128 inputs is out of reach (2.3e4 events quick, 1.0e6 thorough, 0 undecided). Trusted: TLC, BigInt/IEEE/Reals (self-tested against mpmath at 400 bits: 0 misses in 5.2e4 enclosures; with/without Java overrides identical). Not judged (counted): components of infinite inputs / poles that are not path-independent limits. Known findings (120 bounded class keys function:dtype:region:component:clause+severity): signed-zero conventions (DESIGN F11 family), |x| = 1 with subnormal other component in asin_acos_kernel, atanh at x = +-1 with tiny y, exp for x >= 2 log(largest) with subnormal y, complex sqrt of subnormal components; log1p at x = -1 was repaired.",
+    design="6/C01"),
+
  "C09": dict(
     category="model_checking",
     technique="TLA+ spec FAPipeline.tla (generation requests against process-global state) model-checked by TLC; TLC-enumerated and simulated request histories executed in forked real interpreters under several PYTHONHASHSEED values; merged (request, text digest) logs validated by Trace_Pipeline.tla",
